@@ -8,6 +8,7 @@ require (
 	github.com/go-jose/go-jose/v4 v4.0.5
 	github.com/zitadel/oidc/v3 v3.0.0
 	golang.org/x/net v0.36.0
+	golang.org/x/text v0.24.0
 )
 
 require (
@@ -29,7 +30,6 @@ require (
 	golang.org/x/crypto v0.35.0 // indirect
 	golang.org/x/oauth2 v0.29.0 // indirect
 	golang.org/x/sys v0.30.0 // indirect
-	golang.org/x/text v0.24.0 // indirect
 )
 
 replace github.com/zitadel/oidc/v3 => /repo
